@@ -295,6 +295,12 @@ func Enumerate(tier string, seed int64) []*Schema {
 	}
 	fd := func(name string, t *Type) Field { return Field{Name: name, Type: t} }
 
+	// 0. an all-fixed-width struct wider than one byte can count (sizes folded into constants must not wrap)
+	var big []Field
+	for i := 0; i < 20; i++ {
+		big = append(big, fd(fmt.Sprintf("g%d", i), P("guid")))
+	}
+	add(&Schema{Name: "sbig", Records: []*Record{st("Sb", big...)}}, "prims", "wide")
 	// 1. every primitive as a struct field, followed by a sentinel (something must follow, cf. C04)
 	var allp []Field
 	for i, p := range Prims {
